@@ -201,5 +201,351 @@ Definition run_attr (a : list Z) : list Z :=
   | _ => [-2]
   end.
 
+(* ------------------------------------------------------------------ op 3413: the whole attribute (Front/AttrItem.v)
+   3413 0 kind tagopt ext nnames str*nnames     header of a definition; kind 0 sequence 1 set 2 choice 3 enumerated 4 transparent,
+                                                 ext = -1 | index of the member named in extensible_after(..), names = the member
+                                                 names of the Rust model (all members are BOOLEAN)
+   3413 1 <aty> tagopt nconsts (str z)*         field of a struct          3413 2 <aty> tagopt      CHOICE variant
+   3413 3 <aty> nconsts (str z)*                field of a tuple struct    3413 4 (0 | 1 n)         ENUMERATED variant `#[asn(n)]`
+   tagopt: 0 | 1 class number
+   -> 0 <token dump of the printed attribute> <result>    | 2 class (the generator panics) | -2 (malformed)
+      result (what parse_asn_definition lets one observe of the re-parsed attribute)
+        header : 0 kind tagopt ext | 1        (a CHOICE printed without tag answers tagopt 0: its derived default tag is not the attribute's)
+        field  : 0 <aty> tagopt nconsts (str z)* | 1          ENUMERATED variant : 0 (0 | 1 n) | 1 *)
+From A1 Require Import Front.AttrItem.
+
+Definition d_tagopt : dec (option tag) := fun a =>
+  match a with
+  | 0 :: r => Some (None, r)
+  | 1 :: c :: n :: r => option_map (fun g => (Some g, r)) (d_tag c n)
+  | _ => None
+  end.
+
+Fixpoint d_strs (n : nat) : dec (list (list N)) := fun a =>
+  match n with
+  | O => Some ([], a)
+  | S n' => match d_str a with
+            | Some (s, r) => option_map (fun '(l, r') => (s :: l, r')) (d_strs n' r)
+            | None => None
+            end
+  end.
+
+Fixpoint d_consts (n : nat) : dec (list (list N * Z)) := fun a =>
+  match n with
+  | O => Some ([], a)
+  | S n' => match d_str a with
+            | Some (s, z :: r) => option_map (fun '(l, r') => ((s, z) :: l, r')) (d_consts n' r)
+            | _ => None
+            end
+  end.
+
+(* a count that is plausible for the rest of the input (never Z.to_nat an unchecked number) *)
+Definition d_count (a : list Z) : option (nat * list Z) :=
+  match a with
+  | n :: r => if (n <? 0) || (Z.of_nat (length r) <? n) then None else Some (Z.to_nat n, r)
+  | [] => None
+  end.
+
+Definition e_tagopt (tg : option tag) : list Z :=
+  match tg with
+  | None => [0]
+  | Some (TUniversal n) => [1; 0; Z.of_N n] | Some (TApplication n) => [1; 1; Z.of_N n]
+  | Some (TContext n) => [1; 2; Z.of_N n] | Some (TPrivate n) => [1; 3; Z.of_N n]
+  end.
+Definition e_consts (cs : list (list N * Z)) : list Z :=
+  Z.of_nat (length cs) :: flat_map (fun c => e_str (fst c) ++ [snd c]) cs.
+
+Definition d_hkind (z : Z) : option hkind :=
+  if z =? 0 then Some HSequence else if z =? 1 then Some HSet else if z =? 2 then Some HChoice
+  else if z =? 3 then Some HEnumerated else if z =? 4 then Some HTransparent else None.
+Definition e_hkind (k : hkind) : Z :=
+  match k with HSequence => 0 | HSet => 1 | HChoice => 2 | HEnumerated => 3 | HTransparent => 4 end.
+
+Definition dump_toks (fuel : nat) (toks : list tok) : list Z := Z.of_nat (length toks) :: e_toks fuel toks.
+
+(* add_definition: `fields[index]` panics for a struct, `variants.get(index)` gives no name for an enum *)
+Definition header_ext_name (k : hkind) (names : list (list N)) (ext : Z) : res (option (list N)) :=
+  if ext =? -1 then Ok None else
+  match k with
+  | HTransparent => Ok None
+  | HSequence | HSet => if Z.of_nat (length names) <=? ext then Panic P_INDEX_OOB else Ok (nth_error names (Z.to_nat ext))
+  | HChoice | HEnumerated => if Z.of_nat (length names) <=? ext then Ok None else Ok (nth_error names (Z.to_nat ext))
+  end.
+
+Definition run_attr_header (a : list Z) : list Z :=
+  match a with
+  | kz :: r =>
+    match d_hkind kz, d_tagopt r with
+    | Some k, Some (tg, ext :: r') =>
+      match d_count r' with
+      | Some (n, r'') =>
+        match d_strs n r'' with
+        | Some (names, []) =>
+          if ext <? -1 then [-2] else
+          match header_ext_name k names ext with
+          | Panic p => [2; Z.of_N p]
+          | Err _ => [-2]
+          | Ok ex =>
+            let toks := print_attr (mk_attr (PHeader (hkind_name k)) tg [] ex) in
+            0 :: dump_toks 4 toks ++
+              match parse_attr CHeader 1 toks with
+              | Ok a' =>
+                match a_primary a' with
+                | PHeader s =>
+                  match header_kind s with
+                  | Some k' =>
+                    match (match k' with HTransparent => Ok None | _ => find_ext_index (a_ext a') (emitted_members k' names) end) with
+                    | Ok e => 0 :: e_hkind k' :: e_tagopt (a_tag a') ++ [match e with Some i => Z.of_nat i | None => -1 end]
+                    | _ => [1]
+                    end
+                  | None => [1]
+                  end
+                | _ => [1]
+                end
+              | _ => [1]
+              end
+          end
+        | _ => [-2]
+        end
+      | None => [-2]
+      end
+    | _, _ => [-2]
+    end
+  | [] => [-2]
+  end.
+
+Definition run_attr_field (c : ctx) (t : aty) (tg : option tag) (cs : list (list N * Z)) : list Z :=
+  let toks := print_attr (mk_attr (PType t) tg cs None) in
+  0 :: dump_toks (2 * depth t + 8) toks ++
+    match parse_attr c (S (depth t)) toks with
+    | Ok a' =>
+      match into_asn (match t with ARef n _ => n | _ => [] end) a' with
+      | Some (tg', t', cs') => 0 :: e_aty t' ++ e_tagopt tg' ++ e_consts cs'
+      | None => [1]
+      end
+    | _ => [1]
+    end.
+
+Definition run_attr_item (a : list Z) : list Z :=
+  match a with
+  | 0 :: r => run_attr_header r
+  | 1 :: r =>
+    match d_aty (S (length r)) r with
+    | Some (t, r1) =>
+      match d_tagopt r1 with
+      | Some (tg, r2) =>
+        match d_count r2 with
+        | Some (n, r3) => match d_consts n r3 with Some (cs, []) => run_attr_field CTransparent t tg cs | _ => [-2] end
+        | None => [-2]
+        end
+      | None => [-2]
+      end
+    | None => [-2]
+    end
+  | 2 :: r =>
+    match d_aty (S (length r)) r with
+    | Some (t, r1) => match d_tagopt r1 with Some (tg, []) => run_attr_field CChoiceVariant t tg [] | _ => [-2] end
+    | None => [-2]
+    end
+  | 3 :: r =>
+    match d_aty (S (length r)) r with
+    | Some (t, r1) =>
+      match d_count r1 with
+      | Some (n, r2) => match d_consts n r2 with Some (cs, []) => run_attr_field CTransparent t None cs | _ => [-2] end
+      | None => [-2]
+      end
+    | None => [-2]
+    end
+  | 4 :: r =>
+    match (match r with [0] => Some None | [1; n] => if n <? 0 then None else Some (Some (Z.to_N n)) | _ => None end) with
+    | Some num =>
+      let toks := print_attr (mk_attr (PNumber num) None [] None) in
+      0 :: dump_toks 2 toks ++
+        match parse_attr CEnumVariant 1 toks with
+        | Ok a' => match a_primary a' with
+                   | PNumber None => [0; 0]
+                   | PNumber (Some n) => [0; 1; Z.of_N n]
+                   | _ => [1]
+                   end
+        | _ => [1]
+        end
+    | None => [-2]
+    end
+  | _ => [-2]
+  end.
+
+(* ------------------------------------------------------------------ op 3414: descriptor constants (Front/Descr.v)
+   3414 <definition dump>   the canonical dump of one Definition<Rust> of harness/a1h/src/codegen.rs `dump_def`:
+        str name, then  0 sort tagopt ext n (str type tagopt consts)*n | 1 tagopt ext n str*n | 2 tagopt ext n (str type tagopt)*n
+                      | 3 type tagopt consts
+        type  : 0 | 1 kind hasmin min hasmax max ext | 2 size cs | 3 size | 4 size | 5 sort size type | 6 | 7 type | 8 type lit
+              | 9 str tagopt       (kind 0 i8 1 u8 2 i16 3 u16 4 i32 5 u32 6 i64 7 u64)
+        consts: n (str str)*n      ext: -1 | index
+   -> 0 k (str owner, trait, const, value)*k | 2 class | -2
+        trait 0 numbers 1 utf8string 2 numericstring 3 printablestring 4 ia5string 5 visiblestring 6 octetstring 7 bitstring
+              8 sequenceof 9 setof 10 sequence 11 set 12 choice 13 enumerated
+        const 0 MIN 1 MAX 2 EXTENSIBLE 3 STD_VARIANT_COUNT 4 VARIANT_COUNT 5 STD_OPTIONAL_FIELDS 6 FIELD_COUNT 7 EXTENDED_AFTER_FIELD
+        value: the number / 0,1 for a bool / -1 for None *)
+From A1 Require Import Front.IntTy Front.Descr.
+
+Definition d_ikind (z : Z) : option ikind :=
+  if z =? 0 then Some I8 else if z =? 1 then Some U8 else if z =? 2 then Some I16 else if z =? 3 then Some U16
+  else if z =? 4 then Some I32 else if z =? 5 then Some U32 else if z =? 6 then Some I64 else if z =? 7 then Some U64 else None.
+
+Fixpoint d_rty (fuel : nat) : dec rty := fun a =>
+  match fuel with
+  | O => None
+  | S f =>
+    match a with
+    | 0 :: r => Some (RBool, r)
+    | 1 :: k :: hmin :: mn :: hmax :: mx :: e :: r =>
+      match d_ikind k, d_bool hmin, d_bool hmax, d_bool e with
+      | Some k', Some h1, Some h2, Some e' => Some (RInt k' (if h1 then Some mn else None) (if h2 then Some mx else None) e', r)
+      | _, _, _, _ => None
+      end
+    | 2 :: r => match d_size r with
+                | Some (sz, cs :: r') => option_map (fun c => (RString sz c, r')) (d_charset cs)
+                | _ => None
+                end
+    | 3 :: r => option_map (fun '(sz, r') => (RVecU8 sz, r')) (d_size r)
+    | 4 :: r => option_map (fun '(sz, r') => (RBitVec sz, r')) (d_size r)
+    | 5 :: srt :: r => match d_bool srt, d_size r with
+                       | Some s, Some (sz, r') => option_map (fun '(t, r'') => (RVec t sz s, r'')) (d_rty f r')
+                       | _, _ => None
+                       end
+    | 6 :: r => Some (RNull, r)
+    | 7 :: r => option_map (fun '(t, r') => (ROption t, r')) (d_rty f r)
+    | 8 :: r => match d_rty f r with
+                | Some (t, r') => option_map (fun '(l, r'') => (RDefault t l, r'')) (d_lit r')
+                | None => None
+                end
+    | 9 :: r => match d_str r with
+                | Some (name, r') => option_map (fun '(tg, r'') => (RComplex name tg, r'')) (d_tagopt r')
+                | None => None
+                end
+    | _ => None
+    end
+  end.
+
+Fixpoint d_str_pairs (n : nat) : dec (list (list N * list N)) := fun a =>
+  match n with
+  | O => Some ([], a)
+  | S n' => match d_str a with
+            | Some (s, r) => match d_str r with
+                             | Some (v, r') => option_map (fun '(l, r'') => ((s, v) :: l, r'')) (d_str_pairs n' r')
+                             | None => None
+                             end
+            | None => None
+            end
+  end.
+Definition d_rconsts : dec (list (list N * list N)) := fun a =>
+  match d_count a with Some (n, r) => d_str_pairs n r | None => None end.
+
+Definition d_ext : dec (option N) := fun a =>
+  match a with
+  | e :: r => if e =? -1 then Some (None, r) else if e <? 0 then None else Some (Some (Z.to_N e), r)
+  | [] => None
+  end.
+
+Fixpoint d_rfields (with_consts : bool) (fuel n : nat) : dec (list rfield) := fun a =>
+  match n with
+  | O => Some ([], a)
+  | S n' =>
+    match d_str a with
+    | Some (name, r) =>
+      match d_rty fuel r with
+      | Some (t, r1) =>
+        match d_tagopt r1 with
+        | Some (tg, r2) =>
+          match (if with_consts then d_rconsts r2 else Some ([], r2)) with
+          | Some (cs, r3) => option_map (fun '(l, r4) => (mk_rfield name t tg cs :: l, r4)) (d_rfields with_consts fuel n' r3)
+          | None => None
+          end
+        | None => None
+        end
+      | None => None
+      end
+    | None => None
+    end
+  end.
+
+Definition d_def : dec (list N * rust_def) := fun a =>
+  let fuel := S (length a) in
+  match d_str a with
+  | Some (name, 0 :: srt :: r) =>
+    match d_bool srt, d_tagopt r with
+    | Some s, Some (tg, r1) =>
+      match d_ext r1 with
+      | Some (ext, r2) =>
+        match d_count r2 with
+        | Some (n, r3) => option_map (fun '(fs, r4) => ((name, DStruct s fs tg ext), r4)) (d_rfields true fuel n r3)
+        | None => None
+        end
+      | None => None
+      end
+    | _, _ => None
+    end
+  | Some (name, 1 :: r) =>
+    match d_tagopt r with
+    | Some (tg, r1) =>
+      match d_ext r1 with
+      | Some (ext, r2) =>
+        match d_count r2 with
+        | Some (n, r3) => option_map (fun '(vs, r4) => ((name, DEnum vs tg ext), r4)) (d_strs n r3)
+        | None => None
+        end
+      | None => None
+      end
+    | None => None
+    end
+  | Some (name, 2 :: r) =>
+    match d_tagopt r with
+    | Some (tg, r1) =>
+      match d_ext r1 with
+      | Some (ext, r2) =>
+        match d_count r2 with
+        | Some (n, r3) => option_map (fun '(vs, r4) => ((name, DDataEnum vs tg ext), r4)) (d_rfields false fuel n r3)
+        | None => None
+        end
+      | None => None
+      end
+    | None => None
+    end
+  | Some (name, 3 :: r) =>
+    match d_rty fuel r with
+    | Some (t, r1) =>
+      match d_tagopt r1 with
+      | Some (tg, r2) => option_map (fun '(cs, r3) => ((name, DTuple t tg cs), r3)) (d_rconsts r2)
+      | None => None
+      end
+    | None => None
+    end
+  | _ => None
+  end.
+
+Definition e_ctrait (t : ctrait) : Z :=
+  match t with
+  | TrNumbers => 0 | TrString Utf8 => 1 | TrString Numeric => 2 | TrString Printable => 3 | TrString Ia5 => 4 | TrString Visible => 5
+  | TrOctet => 6 | TrBits => 7 | TrSeqOf => 8 | TrSetOf => 9 | TrSequence => 10 | TrSet => 11 | TrChoice => 12 | TrEnumerated => 13
+  end.
+Definition e_cname (c : cname) : Z :=
+  match c with
+  | CMin => 0 | CMax => 1 | CExtensible => 2 | CStdVariantCount => 3 | CVariantCount => 4 | CStdOptionalFields => 5
+  | CFieldCount => 6 | CExtendedAfterField => 7
+  end.
+Definition e_cval (v : cval) : Z :=
+  match v with VZ z => z | VB b => b2z b | VN n => Z.of_N n | VON (Some n) => Z.of_N n | VON None => -1 end.
+
+Definition run_consts (m : mode) (a : list Z) : list Z :=
+  match d_def a with
+  | Some ((name, d), []) =>
+    match consts_of m name d with
+    | Ok cs => 0 :: Z.of_nat (length cs) :: flat_map (fun c => e_str (dc_owner c) ++ [e_ctrait (dc_trait c); e_cname (dc_name c); e_cval (dc_val c)]) cs
+    | Panic p => [2; Z.of_N p]
+    | Err e => [1; Z.of_N e]
+    end
+  | _ => [-2]
+  end.
+
 Definition run_codegen (m : mode) (op : Z) (a : list Z) : list Z :=
-  if op =? 3412 then run_attr a else run_mangle m op a.
+  if op =? 3412 then run_attr a else if op =? 3413 then run_attr_item a else if op =? 3414 then run_consts m a else run_mangle m op a.
